@@ -89,6 +89,7 @@ type Rec struct {
 	maxSample int
 	extra     map[string]any
 	exhaust   bool
+	counted   int64 // non-trivial cases that are distinct by construction (enumerations): counted, not hashed
 }
 
 func New(prop, part, rule string) *Rec {
@@ -113,6 +114,20 @@ func (r *Rec) Case(hash uint64, nontrivial bool, classes ...string) {
 	r.evals++
 	if nontrivial {
 		r.nontriv[salt(r.Part, hash)] = struct{}{}
+	}
+	for _, c := range classes {
+		r.classes[c]++
+	}
+}
+
+// CaseCounted records a case of an enumeration: distinct by construction, so it is counted
+// instead of being hashed into the distinct set.
+func (r *Rec) CaseCounted(nontrivial bool, classes ...string) {
+	r.mu.Lock()
+	defer r.mu.Unlock()
+	r.evals++
+	if nontrivial {
+		r.counted++
 	}
 	for _, c := range classes {
 		r.classes[c]++
@@ -173,6 +188,7 @@ type partial struct {
 	Rule        string            `json:"rule"`
 	Evaluations int64             `json:"evaluations"`
 	Nontrivial  int               `json:"nontrivial_in_shard"`
+	Counted     int64             `json:"nontrivial_counted"`
 	Classes     map[string]int64  `json:"classes"`
 	Excluded    map[string]int64  `json:"excluded_known"`
 	Samples     []json.RawMessage `json:"samples"`
@@ -201,7 +217,7 @@ func (r *Rec) Flush() {
 	}
 	hf := filepath.Join(dir, base+".hashes")
 	_ = os.WriteFile(hf, hb, 0o644)
-	p := partial{Prop: r.Prop, Part: r.Part, Shard: Shard(), Rule: r.Rule, Evaluations: r.evals, Nontrivial: len(hashes),
+	p := partial{Prop: r.Prop, Part: r.Part, Shard: Shard(), Rule: r.Rule, Evaluations: r.evals, Nontrivial: len(hashes), Counted: r.counted,
 		Classes: r.classes, Excluded: r.excluded, Samples: r.samples, Extra: r.extra, Exhaustive: r.exhaust, HashFile: hf}
 	b, _ := json.MarshalIndent(p, "", " ")
 	_ = os.WriteFile(filepath.Join(dir, base+".partial.json"), b, 0o644)
